@@ -122,9 +122,9 @@ class PolytopeTensor(PointLikeTensor, ABC):
     def _cast_polytope(tensor: Tensor, pdim: int) -> PolytopeTensor:
         if pdim == 1:
             return SegmentCollection.from_tensor(tensor)
-        if pdim == 2:
+        if pdim == 2 and tensor.free_indices == 1:
+            # a single polygon (slices and index arrays of a collection stay collections)
             if tensor.shape[-2] == 3:
-                # TODO: check if a collection can be returned here
                 return Triangle(tensor, copy=False)
             if tensor.shape[-2] == 4:
                 try:
@@ -132,6 +132,7 @@ class PolytopeTensor(PointLikeTensor, ABC):
                 except NotCoplanar:
                     return PolytopeCollection.from_tensor(tensor)
 
+        if pdim == 2:
             try:
                 return PolygonCollection.from_tensor(tensor)
             except NotCoplanar:
